@@ -305,6 +305,11 @@ class Worker(multiprocessing.Process):
                 self.notify_incoming_message(msg)
                 self.logger.debug("Putting into recv_queue Queue", msg)
 
+            elif not self.app.is_open():
+                #: get_message() returns None once the connection has ended:
+                #: nothing more will come, and asking again would spin.
+                break
+
 
     #: it starts under worker.start() call
     def run(self):
